@@ -53,6 +53,16 @@ def jobs(tier):
     js.append(Job("glue.optables", "C01/optables.c", kind="proof",
                   functions=["operator_needs_division", "op_flags", "_pixman_setup_combiner_functions_32"],
                   domain="every operator code", timeout=300, min_props=20))
+    # (lead) general_composite_rect itself: pipeline selection, buffer carving, per-row protocol, skip on allocation failure
+    js.append(Job("glue.rect.h2", "C01/glue_rect.c", defines={"VG_HEIGHT": 2}, kind="bounded", bound="height <= 2 rows (row loop unrolled)",
+                  extra_sources=["harness/C01/glue_link.c"],
+                  functions=["general_composite_rect", "pixman_malloc_ab_plus_c", "_pixman_multiply_overflows_int"],
+                  unwind=4, cbmc_flags=["--pointer-check", "--bounds-check", "--memory-leak-check", "--slice-formula"], timeout=600, min_props=20,
+                  domain="every operator, every flag word of the three images, with/without mask, component alpha, dither, every int32 width "
+                         "and request geometry, every allocation-failure pattern; iterators and combiner are recording contract stubs",
+                  assumptions=["iterator set-up (_pixman_implementation_iter_init) and combiner lookup replaced by recording contract stubs: "
+                               "the iterators' own contracts are C10/C08/C13, the combiners' are the row.* jobs, lookup is C02 delegate.*",
+                               "CBMC places the scanline block at offset 0 of its object: the ALIGN() rounding is exercised for an aligned base only"]))
     for op, code in PD[:13]:
         for mode in (0, 1, 2):
             for side in (0, 1):
